@@ -172,6 +172,7 @@ const (
 	ErrWinAccessDenied     WindowsError = 5          // Access is denied.
 	ErrWinAlreadyExists    WindowsError = 183        // Cannot create a file when that file already exists.
 	ErrWinBadNetPath       WindowsError = 53         // Bad network path.
+	ErrWinCantResolveName  WindowsError = 1921       // The name of the file cannot be resolved by the system.
 	ErrWinDirNameInvalid   WindowsError = 0x10B      // The directory name is invalid.
 	ErrWinDirNotEmpty      WindowsError = 145        // The directory is not empty.
 	ErrWinFileExists       WindowsError = 80         // The file exists.
@@ -236,7 +237,7 @@ func (e *Errors) SetOSType(osType OSType) {
 		e.NotADirectory = ErrWinPathNotFound
 		e.OpNotPermitted = ErrWinNotSupported
 		e.PermDenied = ErrWinAccessDenied
-		e.TooManySymlinks = ErrTooManySymlinks
+		e.TooManySymlinks = ErrWinCantResolveName
 	default:
 		e.BadFileDesc = ErrBadFileDesc
 		e.DirNotEmpty = ErrDirNotEmpty
